@@ -1423,7 +1423,7 @@ func (h *ResponseHeader) setSpecialHeader(key, value []byte) bool {
 			h.SetContentEncodingBytes(value)
 			return true
 		case caseInsensitiveCompare(strConnection, key):
-			if bytes.Equal(strClose, value) {
+			if hasHeaderValue(value, strClose) {
 				h.SetConnectionClose()
 				// Connection can only be set once: drop an earlier value.
 				h.h = delAllArgsStable(h.h, b2s(key))
@@ -1488,7 +1488,7 @@ func (h *RequestHeader) setSpecialHeader(key, value []byte) bool {
 			}
 			return true
 		case caseInsensitiveCompare(strConnection, key):
-			if bytes.Equal(strClose, value) {
+			if hasHeaderValue(value, strClose) {
 				h.SetConnectionClose()
 				// Connection can only be set once: drop an earlier value.
 				h.h = delAllArgsStable(h.h, b2s(key))
